@@ -1546,15 +1546,15 @@ class CodedKern(Kern):
         return call_node
 
     def incremented_arg(self):
-        ''' Returns the argument that has INC access. Raises a
-        FieldNotFoundError if none is found.
+        ''' Returns the argument that has INC (or READINC) access. Raises
+        a FieldNotFoundError if none is found.
 
         :rtype: str
         :raises FieldNotFoundError: if none is found.
         :returns: a Fortran argument name.
         '''
         for arg in self.arguments.args:
-            if arg.access == AccessType.INC:
+            if arg.access in (AccessType.INC, AccessType.READINC):
                 return arg
 
         raise FieldNotFoundError(f"Kernel {self.name} does not have an "
